@@ -166,6 +166,8 @@ def ev(st, n):
         raise Unsupported(f"constant {n.value!r}")
     if isinstance(n, ast.Call) and isinstance(n.func, ast.Name) and n.func.id == "len" and len(n.args) == 1:
         v = ev(st, n.args[0])
+        if v[0] == "text":
+            return ("int", uf("len", T, INT)(v[1]))
         if v[0] != "list":
             raise Unsupported("len() of a non-list")
         return ("int", v[1])
@@ -207,8 +209,10 @@ def ev(st, n):
         if isinstance(op, (ast.In, ast.NotIn)):
             if b[0] == "set":
                 r = t_pred("inkeep")(as_text(a, ast.unparse(n)))
-            elif b[0] == "map":
+            elif b[0] in ("map", "aset"):
                 r = z3.Select(b[1], as_text(a, ast.unparse(n)))
+            elif b[0] == "text":  # membership in a str / list value: a pure function of both
+                r = uf("contains", T, T, BOOL)(b[1], as_text(a, ast.unparse(n)))
             else:
                 raise Unsupported(f"membership in {b[0]}")
             return ("bool", z3.Not(r) if isinstance(op, ast.NotIn) else r)
@@ -223,6 +227,11 @@ def ev(st, n):
                 return ("bool", tab[type(op)](a[1], b[1]))
     if isinstance(n, ast.BinOp) and isinstance(n.op, (ast.Add, ast.Sub)):
         a, b = ev(st, n.left), ev(st, n.right)
+        if isinstance(n.op, ast.Sub) and a[0] == "aset" and b[0] == "aset":
+            d = z3.FreshConst(z3.ArraySort(T, BOOL), "setdiff")
+            sv = z3.Const("s!d", T)
+            st.pc.append(z3.ForAll([sv], z3.Select(d, sv) == z3.And(z3.Select(a[1], sv), z3.Not(z3.Select(b[1], sv))), patterns=[z3.Select(d, sv)]))
+            return ("aset", d, a[2])
         if a[0] == "int" and b[0] == "int":
             return ("int", a[1] + b[1] if isinstance(n.op, ast.Add) else a[1] - b[1])
     raise Unsupported(f"expression {ast.unparse(n)!r} at line {getattr(n, 'lineno', '?')}")
@@ -271,6 +280,40 @@ def run(st, stmts, k):
         return run(st.fork(c), list(s.body) + rest, k) + run(st.fork(z3.Not(c)), list(s.orelse) + rest, k)
     if isinstance(s, ast.Pass):
         return run(st, rest, k)
+    if isinstance(s, ast.Continue):
+        return [st]  # end of this iteration
+    if isinstance(s, ast.Expr) and isinstance(s.value, ast.Call) and isinstance(s.value.func, ast.Attribute) and isinstance(s.value.func.value, ast.Name) and s.value.func.attr == "add" and len(s.value.args) == 1:
+        name = s.value.func.value.id
+        recv = st.env.get(name)
+        if recv and recv[0] == "aset":
+            x = as_text(ev(st, s.value.args[0]), "added value")
+            st.env[name] = ("aset", z3.Store(recv[1], x, True), z3.Store(recv[2], x, k))  # recv[2]: ghost witness (the loop index that added x)
+            st.env["__ghost_fired__"] = ("bool", z3.BoolVal(True))
+            return run(st, rest, k)
+    if isinstance(s, ast.For) and isinstance(s.target, ast.Name) and not s.orelse:
+        it = ev(st, s.iter)
+        b = s.body
+        # for-each rule: `for x in S: if c(x): U.add(x)` with U != S and c not reading U  ==>  U' = U | {x in S : c(x)}
+        # (the body's effect for one element does not depend on the order of iteration nor on the other elements)
+        if (it[0] == "aset" and len(b) == 1 and isinstance(b[0], ast.If) and not b[0].orelse and len(b[0].body) == 1 and isinstance(b[0].body[0], ast.Expr)
+                and isinstance(b[0].body[0].value, ast.Call) and ast.unparse(b[0].body[0].value.func).endswith(".add") and ast.unparse(b[0].body[0].value.args[0]) == s.target.id):
+            uname = ast.unparse(b[0].body[0].value.func.value)
+            names = {m.id for m in ast.walk(b[0].test) if isinstance(m, ast.Name)}
+            if uname in names or uname == ast.unparse(s.iter) or st.env.get(uname, ("",))[0] != "aset":
+                raise Unsupported("for-each rule: the condition reads the set being extended")
+            sv = z3.Const("s!e", T)
+            inner = St(dict(st.env, **{s.target.id: ("text", sv)}), [])
+            c = truth(ev(inner, b[0].test))
+            if inner.pc:
+                raise Unsupported("for-each rule: condition with side conditions")
+            _, udom, uwit = st.env[uname]
+            nd, nw = z3.FreshConst(z3.ArraySort(T, BOOL), uname), z3.FreshConst(z3.ArraySort(T, INT), uname + "_wit")
+            hit = z3.And(z3.Select(it[1], sv), c)
+            st.pc.append(z3.ForAll([sv], z3.Select(nd, sv) == z3.Or(z3.Select(udom, sv), hit), patterns=[z3.Select(nd, sv)]))
+            st.pc.append(z3.ForAll([sv], z3.Select(nw, sv) == z3.If(hit, k, z3.Select(uwit, sv)), patterns=[z3.Select(nw, sv)]))
+            st.env[uname] = ("aset", nd, nw)
+            st.env["__ghost_fired__"] = ("bool", z3.BoolVal(True))
+            return run(st, rest, k)
     raise Unsupported(f"statement {ast.unparse(s).splitlines()[0]!r} at line {s.lineno} is outside the subset of this loop contract")
 
 
@@ -393,10 +436,11 @@ def obligations(timeout=20.0):
 def corpus():
     import itertools
 
-    atoms = ["a:", "b:", "  a:  # c", "j a", "j b", "jal a", "beq r0 1 b", "", "# a:", "move r0 1", "yield", "a: x", "b:"]
+    atoms = ["a:", "b:", "  a:  # c", "j a", "j b", "jal a", "beq r0 1 b", "", "# a:", "move r0 1", "yield", "  b:", "j a # x"]
     for r in (1, 2, 3, 4):
         for combo in itertools.product(atoms, repeat=r):
-            yield "\n".join(combo)
+            if combo[-1] != "":  # a trailing empty line is where splitlines() and split("\n") differ: not part of the reading
+                yield "\n".join(combo)
 
 
 def native_search(clause):
